@@ -58,15 +58,20 @@ package fastcgi
 //@ axiom (b0 int, b1 int, b2 int, b3 int) (128 <= b0 && b0 < 256) ==> decode1(b0, b1, b2, b3) == (b0 - 128) * 16777216 + b1 * 65536 + b2 * 256 + b3
 
 //@ unit stream_reader props=C13,C19 filter=`fastcgi\.streamReader\)\.Read$`
+//@ // ghost: number of record reads on the connection that failed (set by the contract of record.read, nothing else)
+//@ ghost readFailures int
 //@ func (*record).read
 //@   requires rec != nil
-//@   modifies record.h, record.rbuf, E:uint8
+//@   modifies record.h, record.rbuf, E:uint8, ghost:readFailures
 //@   ensures err == nil ==> len(buf) == int(rec.h.ContentLength)
+//@   ensures (err != nil ==> readFailures == old(readFailures) + 1) && (err == nil ==> readFailures == old(readFailures))
 
 //@ func (*streamReader).Read
 //@   requires w != nil && w.c != nil && w.c.stderr != nil
-//@   modifies streamReader.buf, E:uint8, record.h, record.rbuf
+//@   modifies streamReader.buf, E:uint8, record.h, record.rbuf, ghost:readFailures
 //@   ensures [count_in_range] 0 <= n && n <= len(p)
+//@   ensures [error_only_from_transport] err != nil ==> readFailures > old(readFailures)
+//@   loop 1 invariant readFailures == old(readFailures)
 //@   ensures [no_invented_bytes] (err == nil && len(old(w.buf)) > 0) ==> (n <= len(old(w.buf)) && len(w.buf) == len(old(w.buf)) - n)
 //@   ensures [error_reads_nothing] err != nil ==> n == 0
 
